@@ -6,6 +6,11 @@ TEXT = {
   level_text="Generated histories (key lists, cipher mixes, client IPs, valid/truncated/flipped/foreign/random streams, list updates) run against the real CipherList + authenticator + StreamHandler; every decision is compared with a linear reference scan written with an independent AEAD codec. A pass means no counter-example among the generated cases; it is a falsifier, not a proof.",
   level_note="Assumes AEAD forgery resistance; in-memory connections instead of sockets; schedules are not explored here (see C19 for the concurrent variant).",
  ),
+ "C02": dict(
+  technique="model-based property testing (rapid): generated relay scripts over loopback TCP vs. a two-FIFO-with-EOF reference model",
+  level_text="Generated scripts of sends and half-closes in both directions, with generated chunking, segmentation, pacing and address forms, run through the real StreamServe/StreamHandler over loopback TCP; the bytes and EOFs seen by the raw client (decrypted with an independent codec) and by the scripted target are compared with two FIFO byte streams with EOF markers.",
+  level_note="Loopback only; scheduler/kernel interleavings are sampled, not enumerated; SDK crypto is trusted only to the extent that an independent codec interoperates with it.",
+ ),
 }
 def _na():
     from checks_table import CHECKS
